@@ -52,6 +52,32 @@ Theorem C33_bounded_value_first : forall x bs,
 Proof. exact keyed_first_value_never_changes. Qed.
 Print Assumptions C33_bounded_value_first.
 
+(* the model's bound judgement ([abound]: which API keeps / erases which promise; compared on every
+   run, node by node, with the bound the builder records) only promises what the emitted semantics
+   delivers *)
+Theorem C33_bound_judgement_sound : forall r bs,
+  match r with
+  | RMap _ _ => True
+  | _ =>
+    match abound r with
+    | BMonoSingle => Adj (single_le nle) (run_a (interp_a r) bs)
+    | BMonoValue => Adj (snap_evolves nle) (run_a (interp_a r) bs)
+    | BMonoKeys => Adj (snap_evolves (fun _ _ => True)) (run_a (interp_a r) bs)
+    | BUnb => True
+    end
+  end.
+Proof. exact abound_sound. Qed.
+Print Assumptions C33_bound_judgement_sound.
+
+(* map / map_with_key erase the monotone-value promise: a non order-preserving closure over a
+   MonotonicValue collection really produces shrinking values *)
+Example C33_map_must_erase :
+  abound (RMap (fun e => e) (RFoldKeyed (VN 0) KCount (SSrc 0))) = BMonoKeys /\
+  C33_holds_b MonoValue
+    (run_a (AMap (fun e => VP (vfst e) (VN (100 - 10 * n_of (vsnd e)))) (AFoldKeyed (VN 0) c_count (SSrc 0)))
+       [mkenv [[VP (VN 1) (VN 0)]]; mkenv [[VP (VN 1) (VN 0)]]]) = false.
+Proof. split; reflexivity. Qed.
+
 Example C33_count_snapshots :
   run_a (AFold (VN 0) c_count (SSrc 0)) [mkenv [[VN 5; VN 6]]; mkenv [[]]; mkenv [[VN 7]]]
   = [[VN 2]; [VN 2]; [VN 3]].
